@@ -29,7 +29,7 @@ def record(tw, rng, n_chains, stats):
             mix = gen.synthetic_mixture(rng, "S", comps=(gen.synthetic_component(rng, "S1", mass=m1),
                                                          gen.synthetic_component(rng, "S2", mass=m2)))
         M1, M2 = float(mix.first_component.molecular_weight), float(mix.second_component.molecular_weight)
-        t0 = rng.choice(["weight", "molar"])
+        t0 = gen.tstr(rng, rng.choice(["weight", "molar"]))
         mode = rng.random()
         if mode < 0.10:
             pa, pb, close = 0.0, gen.fraction(rng), False
@@ -52,7 +52,7 @@ def record(tw, rng, n_chains, stats):
         tr = tw.new()
         tr.append({"ev": "New", "M1": M1, "M2": M2, "close": close, "a": comp_state(a), "b": comp_state(b)})
         for _ in range(rng.randrange(2, 6)):
-            to = rng.choice(["weight", "molar"])
+            to = gen.tstr(rng, rng.choice(["weight", "molar"]))
             try:
                 a2 = a.to_molar(mix) if to == "molar" else a.to_weight(mix)
                 b2 = b.to_molar(mix) if to == "molar" else b.to_weight(mix)
